@@ -34,6 +34,13 @@ def install():
 
     ss.StateSpace.fork_parallel = fork_parallel
 
+    # contract *enforcement* on callees (a tracing module that wraps every call and every class construction to
+    # look for PEP-316 contracts on the callee) is switched off: no function of /repo or of its dependencies
+    # carries such a contract, so it can never fire; it costs a factor 6 of analysis time.
+    import crosshair.enforce as enforce
+
+    enforce.EnforcedConditions.trace_call = lambda self, frame, fn, binding_target: None
+
     _check = z3.Solver.check
 
     def check(self, *a):
